@@ -114,7 +114,7 @@ def wor_oracle(rng, cfg, pop):
     return None, runs
 
 
-def wor_oracle_two(cfg, N, k, a, b):
+def wor_oracle_two(cfg, N, k, a, b, obj=None):
     """two-valued population (k cards of value a, N-k of value b): all C(N,k) distinct orderings, equal multiplicity"""
     ps = []
     runs = 0
@@ -122,7 +122,7 @@ def wor_oracle_two(cfg, N, k, a, b):
         xs = [b] * N
         for i in pos:
             xs[i] = a
-        p = min_p(cfg, xs)
+        p = min_p(cfg, xs, obj)
         runs += 1
         if p is None:
             return None, runs
@@ -195,7 +195,13 @@ def run(ctx, res):
             if "population" in inp:
                 v, runs = wor_oracle(ctx.rng, cfg, [nnm.unjson(x) for x in inp["population"]])
             elif "count_a" in inp:
-                v, runs = wor_oracle_two(cfg, int(inp["N"]), int(inp["count_a"]), nnm.unjson(inp["a"]), nnm.unjson(inp["b"]))
+                obj = None
+                if inp.get("instance_used_before_with"):
+                    e = inp["instance_used_before_with"]
+                    obj = nnm.used_instance(nnm.cfg_from_json(e["cfg"]), [nnm.unjson(x) for x in e["xs"]])
+                    if obj is not None:
+                        nnm.retarget(obj, cfg)
+                v, runs = wor_oracle_two(cfg, int(inp["N"]), int(inp["count_a"]), nnm.unjson(inp["a"]), nnm.unjson(inp["b"]), obj)
             else:
                 v, runs = iid_oracle(ctx.rng, cfg, [nnm.unjson(x) for x in inp["support"]], [nnm.unjson(x) for x in inp["probs"]], int(inp["n"]))
             res.oracle_runs += runs
@@ -296,7 +302,7 @@ def run(ctx, res):
         order = sorted(cr.bad, key=lambda cm: (-float(cm[0]["cfg"]["p"].get("f", 0)), float(cm[0]["cfg"]["p"].get("d", 0))))
         for c0, _ in order:
             cfg = dict(c0["cfg"])
-            key = repr((cfg["kind"], cfg["p"]))
+            key = repr((cfg["kind"], cfg["p"], c0.get("earlier")))
             if key in seen or len(seen) >= 24 or cfg["kind"] in ("km", "kw") or _time.time() > t_end:
                 continue
             seen.add(key)
@@ -310,20 +316,33 @@ def run(ctx, res):
                     for kk in {k, max(k - 1, 0)}:
                         if math.comb(N, kk) > 6000:
                             continue
-                        cfg2 = dict(cfg, N=N)
-                        v, runs = wor_oracle_two(cfg2, N, kk, a, F(0))
+                        cfg2 = dict(cfg, N=N, ro=True)      # (a finite population is sampled in random order)
+                        obj = None
+                        if c0.get("earlier"):
+                            # the disagreeing instance had been used with another configuration and re-tuned in place:
+                            # the population is judged by an instance with the same past
+                            # (its earlier use is re-enacted at the population size under study, so that what differs
+                            #  between the two uses is what differed in the disagreeing case)
+                            e_cfg, e_xs = c0["earlier"]
+                            earlier2 = (dict(e_cfg, N=N, ro=True), list(e_xs)[:N])
+                            obj = nnm.used_instance(*earlier2)
+                            if obj is not None:
+                                nnm.retarget(obj, cfg2)
+                        v, runs = wor_oracle_two(cfg2, N, kk, a, F(0), obj)
                         res.oracle_runs += runs
                         if v:
-                            found = (cfg2, N, kk, a, v)
+                            found = (cfg2, N, kk, a, v, (earlier2 if obj is not None else None))
                             break
                     if found:
                         break
                 if found:
                     break
             if found:
-                cfg2, N, kk, a, v = found
-                res.oracle_violations.append({"what": f"{cfg2['kind']}: rejection frequency over all orderings of a two-valued null population exceeds alpha",
-                                              "input": {"cfg": C.jsonable(cfg2), "N": N, "count_a": kk, "a": C.jsonable(a), "b": 0},
+                cfg2, N, kk, a, v, earlier = found
+                past = ({"instance_used_before_with": {"cfg": C.jsonable(earlier[0]), "xs": C.jsonable(earlier[1])}} if earlier else {})
+                res.oracle_violations.append({"what": f"{cfg2['kind']}: rejection frequency over all orderings of a two-valued null population exceeds alpha"
+                                                      + (" (instance re-tuned in place after an earlier use)" if earlier else ""),
+                                              "input": {"cfg": C.jsonable(cfg2), "N": N, "count_a": kk, "a": C.jsonable(a), "b": 0, **past},
                                               "observed": v, "signature": f"C01:wor2:{cfg2['kind']}"})
     res.rule = ("correspondence as C11; oracle: exact enumeration on the implementation of all N! orderings of null populations "
                 f"(N<={maxN}; shapes: uniform, total exactly N t, two-valued, all-t, zeros-and-u, climb) and of all support^n sequences "
